@@ -1,48 +1,6 @@
 //! svcheck: one binary, one sub-command per property (`svcheck C01 quick`, `svcheck C01 --replay F`).
-#[cfg(feature = "c01")]
-mod c01;
-#[cfg(feature = "c02")]
-mod c02;
-#[cfg(feature = "c03")]
-mod c03;
-#[cfg(feature = "c04")]
-mod c04;
-#[cfg(feature = "c05")]
-mod c05;
-#[cfg(feature = "c06")]
-mod c06;
-#[cfg(feature = "c07")]
-mod c07;
-#[cfg(feature = "c08")]
-mod c08;
-#[cfg(feature = "c09")]
-mod c09;
-#[cfg(feature = "c10")]
-mod c10;
-#[cfg(feature = "c11")]
-mod c11;
-#[cfg(feature = "c12")]
-mod c12;
-#[cfg(feature = "c13")]
-mod c13;
-#[cfg(feature = "c14")]
-mod c14;
-#[cfg(feature = "c15")]
-mod c15;
-#[cfg(feature = "c16")]
-mod c16;
-#[cfg(feature = "c17")]
-mod c17;
-#[cfg(feature = "c18")]
-mod c18;
-#[cfg(feature = "c19")]
-mod c19;
-#[cfg(feature = "c20")]
-mod c20;
-mod common;
-mod trace;
-mod selftest;
 
+use checks::*;
 use vcore::main_entry;
 
 fn main() {
